@@ -122,7 +122,19 @@ for (local, v) in ENDPOINTS:
     KK_ARMS["Get%sRules" % v] = ("vx_arm_get_%s_rules" % local, "%s_rules: %s, response: oneshot::Sender<%s>" % (local, OPT_RULES, OPT_RULES), "", "", "", """
         ensures sent_value(response) == %s_rules,  // @C09.actor.Get%sRules.replies_stored_value
 """ % (local, v))
-KK_NOT_SLICED = {"GetNotify"}   # not relied upon by C09/C10
+KK_NOT_SLICED = {"GetNotify"}
+AS_MODULES = ["key_keeper", "telemetry_reader", "telemetry_logger", "redirector", "proxy_server", "proxy_agent_status"]
+AS_OTHER_ARMS = {
+    "SetStatusMessage": [("message", "String"), ("module", "AgentStatusModule"), ("response", "oneshot::Sender<bool>")],
+    "GetStatusMessage": [("module", "AgentStatusModule"), ("response", "oneshot::Sender<String>")],
+    "SetState": [("state", "ModuleState"), ("module", "AgentStatusModule"), ("response", "oneshot::Sender<ModuleState>")],
+    "GetState": [("module", "AgentStatusModule"), ("response", "oneshot::Sender<ModuleState>")],
+    "ClearAllSummary": [("response", "oneshot::Sender<()>")],
+    "GetConnectionCount": [("response", "oneshot::Sender<u128>")],
+    "IncreaseConnectionCount": [("response", "oneshot::Sender<u128>")],
+    "IncreaseTcpConnectionCount": [("response", "oneshot::Sender<u128>")],
+}
+AS_NOT_SLICED = {"GetAllConnectionSummary", "GetAllFailedConnectionSummary"}   # `for (_, v) in map.iter()`: outside the Verus subset   # not relied upon by C09/C10
 
 
 
@@ -223,7 +235,7 @@ def build(u):
     with u.mod("proxy_agent_shared"):
         with u.mod("proxy_agent_aggregate_status"):
             u.take(ags, "ProxyConnectionSummary", "struct")
-            u.take(ags, "ModuleState", "enum")
+            u.take(ags, "ModuleState", "enum", keep_derive=("Clone", "Debug"))
     with u.mod("key_keeper"):
         with u.mod("key", uses="use std::collections::HashMap;"):
             # E13: the rule document is only handed to from_authorization_item by set_*_rules (never looked into here)
@@ -321,7 +333,7 @@ use std::collections::{hash_map, HashMap};
 use tokio::sync::{mpsc, oneshot};
 use vstd::std_specs::hash::*;"""
     with u.mod("agent_status_wrapper", uses=uses):
-        u.take(asw, "AgentStatusModule", "enum")
+        u.take(asw, "AgentStatusModule", "enum", keep_derive=("Clone", "Debug"))
         u.take_ext(asw, ["AgentStatusAction", "AgentStatusSharedState"], "vx_ext_status_actor", opaque=False, transparent=True,
                    uses="use crate::shared_state::agent_status_wrapper::AgentStatusModule;\nuse crate::proxy::proxy_summary::ProxySummary;\nuse crate::proxy_agent_shared::proxy_agent_aggregate_status::{ModuleState, ProxyConnectionSummary};\nuse tokio::sync::{mpsc, oneshot};")
         # ---- the wrapper methods that hand a summary to the actor: whole bodies under contract (tokio channel operations: E9, assumed)
@@ -393,6 +405,34 @@ use vstd::std_specs::hash::*;"""
             forall|j: String| #[trigger] final(%(l)s)@.contains_key(j) ==> final(%(l)s)@[j].count <= u64::MAX,
             final(%(o)s)@ == old(%(o)s)@,  // @%(p)s.actor.%(v)s.the_other_summary_is_untouched
 """ % dict(l=local, p=prop, v=variant, o=other))
+
+        # ---- every OTHER arm of the status actor: sliced for panic-freedom only (C13: a panic in this task ends the ONE task that owns
+        # all status state; every later status call then fails). All actor locals are handed over by value (`x_0`, rebound `let mut x`).
+        AS_LOCALS = [("%s_state" % m, "ModuleState") for m in AS_MODULES] + [(("%s_status_message" % m).replace("status_status", "status"), "String") for m in AS_MODULES] + \
+                    [("proxy_summary", "HashMap<String, ProxyConnectionSummary>"), ("failed_authenticate_summary", "HashMap<String, ProxyConnectionSummary>"),
+                     ("tcp_connection_count", "u128"), ("http_connection_count", "u128")]
+        declared = set(asw.s(l["pat"][0], l["pat"][1]).replace("mut ", "").split(":")[0].strip() for l in it["lets"])
+        for (n, _t) in AS_LOCALS:
+            if n not in declared:
+                raise Undecided("%s: actor local %s is missing" % (FN, n))
+        for variant in seen:
+            if variant in ("AddOneFailedConnectionSummary", "AddOneConnectionSummary"):
+                continue
+            if variant not in AS_OTHER_ARMS:
+                if variant in AS_NOT_SLICED:
+                    continue
+                raise Undecided("%s: unknown actor arm %s" % (FN, variant))
+            fields = AS_OTHER_ARMS[variant]
+            pat = re.sub(r"\s+", "", asw.s(seen[variant]["pat"][0], seen[variant]["pat"][1])).replace(",}", "}")
+            if pat != "AgentStatusAction::%s{%s}" % (variant, ",".join(f for (f, _t) in fields)):
+                raise Undecided("%s: arm %s binds other names than %s" % (FN, variant, [f for (f, _t) in fields]))
+            lo, hi = arm_block(asw, seen[variant], FN + " " + variant)
+            gname = "vx_arm_status_" + re.sub(r"(?<!^)([A-Z])", r"_\1", variant).lower()
+            u.slice_fn(asw, FN, gname, lo, hi,
+                       ", ".join(["%s_0: %s" % (n, t) for (n, t) in AS_LOCALS] + ["%s: %s" % (f, t) for (f, t) in fields]),
+                       pre_body="broadcast use axiom_to_string_string, axiom_string_ext;\n" + "".join("let mut %s = %s_0;\n" % (n, n) for (n, _t) in AS_LOCALS),
+                       what="(actor arm AgentStatusAction::%s, panic-freedom)" % variant)
+            u.auto_props[gname] = "C13"
 
 
 def build_key_keeper_actor(u, kkw):
